@@ -210,7 +210,7 @@ Lemma inv_create c ex k0 k1 k2 fk s :
   inv s -> op_status s (Create c ex k0 k1 k2 fk) = SOk ->
   inv (do_op s (Create c ex k0 k1 k2 fk)).
 Proof.
-  intros Hi Hst. pose proof Hi as [H1 H2 H3]. cbn [do_op].
+  intros Hi Hst. pose proof Hi as [H1 H2 H3]. cbn [do_op]. unfold create.
   set (i := match ex with Some i => i | None => seqno c s + 1 end).
   assert (Hfresh : ~ In i (ids (tab c s))).
   { subst i. cbn in Hst. destruct (negb (fkv_live fk s)); [discriminate|].
@@ -265,6 +265,27 @@ Proof.
     + apply destroy_links_In in Hin. destruct Hin as [_ Hin]. apply Hin. exact Hc.
 Qed.
 
+(* liveness after a create *)
+Lemma live_create_old c' i' c ex k0 k1 k2 fk s :
+  live c' i' s = true -> live c' i' (create c ex k0 k1 k2 fk s) = true.
+Proof.
+  unfold live, create. intros H. destruct (cls_eq_dec c' c) as [->|Hne].
+  - rewrite tab_set_tab_same. apply has_id_In, In_ids_insert_row. right. apply has_id_In. exact H.
+  - rewrite tab_set_tab_other by exact Hne. exact H.
+Qed.
+Lemma live_create_new c k0 k1 k2 fk s :
+  live c (seqno c s + 1) (create c None k0 k1 k2 fk s) = true.
+Proof.
+  unfold live, create. rewrite tab_set_tab_same. apply has_id_In, In_ids_insert_row. left. reflexivity.
+Qed.
+Lemma status_m2m_create j x k0 k1 k2 s :
+  op_status s (MCreate j x k0 k1 k2) = SOk ->
+  op_status (create (j_other j) None k0 k1 k2 FkNone s) (Add j x (seqno (j_other j) s + 1)) = SOk.
+Proof.
+  cbn [op_status]. intros H. destruct (live (j_owner j) x s) eqn:E; [|discriminate].
+  rewrite live_create_old by exact E. rewrite live_create_new. reflexivity.
+Qed.
+
 Lemma inv_step s o : inv s -> inv (step s o).
 Proof.
   intros Hi. unfold step. destruct (op_status s o) eqn:E; auto.
@@ -275,6 +296,11 @@ Proof.
   - apply inv_add; assumption.
   - apply inv_remove; assumption.
   - apply inv_destroy; assumption.
+  - rewrite m2m_add_char. apply inv_add; assumption.
+  - rewrite m2m_remove_char. apply inv_remove; assumption.
+  - rewrite m2m_add_char. apply inv_add; [|apply status_m2m_create; exact E].
+    apply (inv_create (j_other j) None k0 k1 k2 FkNone s Hi). reflexivity.
+  - apply (inv_create CB None k0 k1 k2 (FkId a) s Hi). reflexivity.
 Qed.
 
 Lemma inv_fold ops : forall s, inv s -> inv (fold_left step ops s).
@@ -491,18 +517,18 @@ Proof.
 Qed.
 
 Lemma list_query_agree_related ops j o inst :
-  order_ok o = true -> live (j_owner j) inst (run ops) = true ->
+  order_ok o = true -> sqlrel_order_ok j o = true -> live (j_owner j) inst (run ops) = true ->
   exists l cands,
     related_join j o (run ops) inst = JOk l /\ sql_related j o (run ops) inst = JOk cands /\
     forall q, sql_rows (order_keys o) cands q ->
               Permutation l q /\ (total_on (order_keys o) cands -> q = l).
 Proof.
-  intros Hok Hlive. set (s := run ops) in *. pose proof (inv_run ops) as Hi. fold s in Hi.
+  intros Hok Hsq Hlive. set (s := run ops) in *. pose proof (inv_run ops) as Hi. fold s in Hi.
   destruct (get_all_total (tab (j_other j) s) (related_ids j s inst)) as [rows [Hg [Hids Hincl]]].
   { intros i. apply related_ids_live. exact Hi. }
   destruct (fetch_sorted_spec o _ _ rows Hok Hg) as [l [Hf [Hp Hs]]].
   exists l, rows. split; [exact Hf|]. split.
-  - unfold sql_related. rewrite Hok, Hlive. cbn [negb]. f_equal.
+  - unfold sql_related. rewrite Hok, Hsq, Hlive. cbn [negb]. f_equal.
     apply get_all_flat_map. unfold sql_related_sel. rewrite gen_sqlrelated_select_char.
     unfold related_ids in Hg. rewrite gen_related_select_char in Hg. exact Hg.
   - intros q Hq. apply (agree_from_perm o _ l q Hp Hs Hq).
@@ -654,4 +680,260 @@ Proof.
       destruct (pair_dec r p) as [->|]; [|reflexivity].
       destruct (pair_dec (mkpair j x y) p) as [<-|]; [|reflexivity].
       exfalso. assert (is_pair j x y (mkpair j x y) = true) by (apply is_pair_spec; reflexivity). congruence.
+Qed.
+
+(* ------------------------------------------------------------------ *)
+(* the exact order of a list join: stable, hence determined            *)
+(* ------------------------------------------------------------------ *)
+Lemma fetch_sorted_stable o t l rows :
+  order_ok o = true -> get_all t l = Some rows ->
+  exists res, fetch_sorted o t l = JOk res /\ sortedR o res /\
+              stable_wrt rval (order_keys o) rows res /\
+              forall l2, sortedR o l2 -> stable_wrt rval (order_keys o) rows l2 -> l2 = res.
+Proof.
+  intros Hok Hg. unfold fetch_sorted. rewrite Hg.
+  destruct (apply_order_spec rval o rows Hok) as [res [Ha [Hp Hs]]].
+  destruct (apply_order_stable rval o rows Hok) as [res' [Ha' Hst]].
+  rewrite Ha in Ha'. inversion Ha'; subst res'. clear Ha'.
+  exists res. rewrite Ha. split; [reflexivity|]. split; [exact Hs|]. split; [exact Hst|].
+  intros l2 Hs2 Hst2. apply (stable_sorted_unique rval (order_keys o)); [exact Hs2|exact Hs|].
+  intros x. rewrite (Hst2 x), (Hst x). reflexivity.
+Qed.
+
+Lemma multiple_join_stable ops o a :
+  order_ok o = true ->
+  let cands := filter (fk_is a) (tB (run ops)) in
+  exists l, multiple_join o (run ops) a = JOk l /\
+            stable_wrt rval (order_keys o) cands l /\
+            forall l2, sortedR o l2 -> stable_wrt rval (order_keys o) cands l2 -> l2 = l.
+Proof.
+  intros Hok cands. set (s := run ops) in *. pose proof (inv_run ops) as Hi. fold s in Hi.
+  assert (Hnd : NoDup (ids (tB s))) by (apply (inv_nodup_ids s CB Hi)).
+  unfold multiple_join, multiple_ids.
+  destruct (fetch_sorted_stable o (tB s) (ids cands) cands Hok) as [l [Hf [_ [Hst Hu]]]].
+  { apply get_all_sub; [exact Hnd|]. intros x Hx. apply filter_In in Hx. tauto. }
+  exists l. auto.
+Qed.
+
+(* related joins: the rows come in the order of the link table (rowid), one per
+   link row, and are then sorted stably *)
+Lemma related_join_stable ops j o inst :
+  order_ok o = true ->
+  exists rows l,
+    ids rows = related_ids j (run ops) inst /\ incl rows (tab (j_other j) (run ops)) /\
+    related_join j o (run ops) inst = JOk l /\
+    stable_wrt rval (order_keys o) rows l /\
+    forall l2, sortedR o l2 -> stable_wrt rval (order_keys o) rows l2 -> l2 = l.
+Proof.
+  intros Hok. set (s := run ops). pose proof (inv_run ops) as Hi. fold s in Hi.
+  destruct (get_all_total (tab (j_other j) s) (related_ids j s inst)) as [rows [Hg [Hids Hincl]]].
+  { intros i. apply related_ids_live. exact Hi. }
+  destruct (fetch_sorted_stable o _ _ rows Hok Hg) as [l [Hf [_ [Hst Hu]]]].
+  exists rows, l. auto.
+Qed.
+
+(* how the keys are written makes no difference *)
+Lemma same_order_keys o o' : same_order o o' -> Forall2 same_key (order_keys o) (order_keys o').
+Proof.
+  destruct o, o'; cbn; try contradiction; intros H; auto.
+Qed.
+
+Lemma list_join_forms o o' s :
+  same_order o o' ->
+  (forall a, multiple_join o s a = multiple_join o' s a) /\
+  (forall j inst, related_join j o s inst = related_join j o' s inst) /\
+  (forall cands q, sql_rows (order_keys o) cands q <-> sql_rows (order_keys o') cands q).
+Proof.
+  intros H. split; [|split].
+  - intros a. unfold multiple_join, fetch_sorted. destruct (get_all _ _); [|reflexivity].
+    rewrite (apply_order_form rval o o' _ H). reflexivity.
+  - intros j inst. unfold related_join, fetch_sorted. destruct (get_all _ _); [|reflexivity].
+    rewrite (apply_order_form rval o o' _ H). reflexivity.
+  - intros cands q. unfold sql_rows.
+    assert (E : forall x y, lex_le rval (order_keys o) x y = lex_le rval (order_keys o') x y).
+    { intros x y. apply lex_le_form, same_order_keys, H. }
+    split; intros [Hp Hs]; (split; [exact Hp|]);
+      (eapply StronglySorted_ind with (P := fun l => StronglySorted _ l); [constructor| |exact Hs]);
+      intros a l _ IH Hf; constructor; auto;
+      rewrite Forall_forall in *; intros z Hz; specialize (Hf z Hz); congruence.
+Qed.
+
+(* the self-referential query join with an expression key *)
+Lemma sql_related_self_expr j o s inst :
+  order_ok o = true -> sqlrel_order_ok j o = false -> sql_related j o s inst = JDbError.
+Proof. intros Hok Hs. unfold sql_related. rewrite Hok, Hs. reflexivity. Qed.
+
+(* ------------------------------------------------------------------ *)
+(* ManyToMany / OneToMany                                              *)
+(* ------------------------------------------------------------------ *)
+Lemma m2m_as_related ops j o inst :
+  order_ok o = true ->
+  let cands := m2m_cands j (run ops) inst in
+  exists l, related_join j o (run ops) inst = JOk l /\
+            Permutation cands l /\ incl cands (tab (j_other j) (run ops)) /\
+            (forall x, count_occ Z.eq_dec (ids cands) x =
+                       count_occ pair_dec (link (j_link j) (run ops)) (mkpair j inst x)) /\
+            forall q, sql_rows (order_keys o) cands q ->
+                      Permutation l q /\ (total_on (order_keys o) cands -> q = l).
+Proof.
+  intros Hok cands. subst cands. set (s := run ops). pose proof (inv_run ops) as Hi. fold s in Hi.
+  destruct (get_all_total (tab (j_other j) s) (related_ids j s inst)) as [rows [Hg [Hids Hincl]]].
+  { intros i. apply related_ids_live. exact Hi. }
+  destruct (fetch_sorted_spec o _ _ rows Hok Hg) as [l [Hf [Hp Hs]]].
+  assert (E : m2m_cands j s inst = rows).
+  { unfold m2m_cands. rewrite gen_m2m_select_char. apply get_all_flat_map.
+    unfold related_ids in Hg. rewrite gen_related_select_char in Hg. exact Hg. }
+  rewrite E. exists l. split; [exact Hf|]. split; [exact Hp|]. split; [exact Hincl|]. split.
+  - intros x. rewrite Hids, related_ids_char. apply count_related.
+  - intros q Hq. apply (agree_from_perm o _ l q Hp Hs Hq).
+Qed.
+
+Lemma m2m_symmetric ops j a b :
+  count_occ Z.eq_dec (ids (m2m_cands j (run ops) a)) b =
+  count_occ Z.eq_dec (ids (m2m_cands (mirror j) (run ops) b)) a.
+Proof.
+  destruct (m2m_as_related ops j ONone a eq_refl) as [_ [_ [_ [_ [Ha _]]]]].
+  destruct (m2m_as_related ops (mirror j) ONone b eq_refl) as [_ [_ [_ [_ [Hb _]]]]].
+  rewrite Ha, Hb, mkpair_mirror. reflexivity.
+Qed.
+
+Lemma m2m_count ops j inst :
+  length (m2m_cands j (run ops) inst) =
+  length (filter (fun r => col_of (j_side j) r =? inst) (link (j_link j) (run ops))).
+Proof.
+  set (s := run ops). pose proof (inv_run ops) as Hi. fold s in Hi.
+  destruct (get_all_total (tab (j_other j) s) (related_ids j s inst)) as [rows [Hg [Hids Hincl]]].
+  { intros i. apply related_ids_live. exact Hi. }
+  assert (E : m2m_cands j s inst = rows).
+  { unfold m2m_cands. rewrite gen_m2m_select_char. apply get_all_flat_map.
+    unfold related_ids in Hg. rewrite gen_related_select_char in Hg. exact Hg. }
+  rewrite E. rewrite <- (map_length r_id rows). fold (ids rows). rewrite Hids, related_ids_char, map_length.
+  reflexivity.
+Qed.
+
+Lemma o2m_as_multiple ops o a :
+  order_ok o = true ->
+  let cands := o2m_cands (run ops) a in
+  (forall b, In b cands <-> In b (tB (run ops)) /\ r_fk b = Some a) /\ NoDup cands /\
+  exists l, multiple_join o (run ops) a = JOk l /\
+            forall q, sql_rows (order_keys o) cands q ->
+                      Permutation l q /\ (total_on (order_keys o) cands -> q = l).
+Proof.
+  intros Hok cands. subst cands. unfold o2m_cands. split; [|split].
+  - intros b. rewrite filter_In, fk_is_spec. tauto.
+  - apply NoDup_filter, nodup_ids_rows. apply (inv_nodup_ids _ CB (inv_run ops)).
+  - destruct (list_query_agree_multiple ops o a Hok) as [l [cands [Hl [Hc Hq]]]].
+    unfold sql_multiple in Hc. rewrite Hok in Hc. inversion Hc; subst cands.
+    exists l. split; [exact Hl|exact Hq].
+Qed.
+
+Lemma m2m_add_same s j x y : step s (MAdd j x y) = step s (Add j x y).
+Proof.
+  unfold step. cbn [op_status do_op].
+  destruct (live (j_owner j) x s && live (j_other j) y s); [apply m2m_add_char|reflexivity].
+Qed.
+Lemma m2m_remove_same s j x y : step s (MRemove j x y) = step s (Remove j x y).
+Proof.
+  unfold step. cbn [op_status do_op].
+  destruct (live (j_owner j) x s && live (j_other j) y s); [apply m2m_remove_char|reflexivity].
+Qed.
+Lemma m2m_create_steps s j x k0 k1 k2 :
+  op_status s (MCreate j x k0 k1 k2) = SOk ->
+  step s (MCreate j x k0 k1 k2) =
+  step (step s (Create (j_other j) None k0 k1 k2 FkNone)) (Add j x (seqno (j_other j) s + 1)).
+Proof.
+  intros H. unfold step at 1. rewrite H. cbn [do_op].
+  assert (E : step s (Create (j_other j) None k0 k1 k2 FkNone) = create (j_other j) None k0 k1 k2 FkNone s)
+    by reflexivity.
+  rewrite E. unfold step. rewrite (status_m2m_create j x k0 k1 k2 s H). cbn [do_op].
+  apply m2m_add_char.
+Qed.
+
+(* OneToMany create (since /repo 80b2179): a Create of B whose foreign key is the owner *)
+Lemma o2m_create_same s a k0 k1 k2 :
+  live CA a s = true ->
+  step s (OCreate a k0 k1 k2) = step s (Create CB None k0 k1 k2 (FkId a)).
+Proof. intros H. unfold step. cbn [op_status fkv_live negb]. rewrite H. reflexivity. Qed.
+
+Lemma o2m_create ops a k0 k1 k2 :
+  let s := run ops in
+  live CA a s = true ->
+  exists b, In b (tB (step s (OCreate a k0 k1 k2))) /\ ~ In b (tB s) /\ r_fk b = Some a /\
+            r_id b = nB s + 1 /\
+            In b (o2m_cands (step s (OCreate a k0 k1 k2)) a).
+Proof.
+  intros s H. pose proof (inv_run ops) as Hi. fold s in Hi.
+  unfold step. cbn [op_status]. rewrite H. cbn [do_op]. unfold create. cbn [seqno fkv_val].
+  set (r := {| r_id := nB s + 1; r_k0 := k0; r_k1 := k1; r_k2 := k2; r_fk := Some a |}).
+  change (tB (set_tab CB ?t ?n s)) with t.
+  assert (Hin : In r (insert_row r (tab CB s))) by (apply In_insert_row; left; reflexivity).
+  exists r. split; [exact Hin|]. split; [|split; [reflexivity|split; [reflexivity|]]].
+  - intros Hold. assert (In (r_id r) (ids (tab CB s))) as Hid by (apply in_map; exact Hold).
+    apply (inv_seq _ Hi CB) in Hid. cbn in Hid. lia.
+  - unfold o2m_cands. apply filter_In. split; [exact Hin|]. apply fk_is_spec. reflexivity.
+Qed.
+
+(* SingleJoin when class B has a defaultOrder *)
+Lemma single_default ops d a r :
+  let s := run ops in
+  single_first d s a r ->
+  (r = None <-> forall b, In b (tB s) -> r_fk b <> Some a) /\
+  (forall b, r = Some b -> In b (tB s) /\ r_fk b = Some a /\
+             forall b', In b' (tB s) -> r_fk b' = Some a -> lex_le rval (order_keys d) b b' = true) /\
+  (forall b, In b (tB s) -> r_fk b = Some a ->
+             (forall b', In b' (tB s) -> r_fk b' = Some a -> b' = b) -> r = Some b).
+Proof.
+  intros s. unfold single_first.
+  assert (Hmem : forall b, In b (filter (fk_is a) (tB s)) <-> In b (tB s) /\ r_fk b = Some a).
+  { intros b. rewrite filter_In, fk_is_spec. tauto. }
+  revert Hmem. generalize (filter (fk_is a) (tB s)) as fl. intros fl Hmem H.
+  destruct r as [x|].
+  - destruct H as [Hx Hmin]. split; [|split].
+    + split; [discriminate|]. intros Hn. exfalso. apply Hmem in Hx. apply (Hn x); tauto.
+    + intros b Hb. inversion Hb; subst b. apply Hmem in Hx. split; [tauto|]. split; [tauto|].
+      intros b' H1 H2. apply Hmin. apply Hmem. tauto.
+    + intros b Hb Hfk Hu. f_equal. apply Hmem in Hx. apply Hu; tauto.
+  - subst fl. split; [|split].
+    + split; [|reflexivity]. intros _ b Hb Hfk. apply (Hmem b). tauto.
+    + discriminate.
+    + intros b Hb Hfk _. exfalso. apply (Hmem b). tauto.
+Qed.
+
+Lemma single_first_none ops a : single_first ONone (run ops) a (single_join (run ops) a).
+Proof.
+  unfold single_first, single_join. destruct (filter (fk_is a) (tB (run ops))) as [|x l]; cbn; [reflexivity|].
+  split; [left; reflexivity|reflexivity].
+Qed.
+
+Lemma names_always_ok j o : has_expr o = false -> sqlrel_order_ok j o = true.
+Proof. intros H. unfold sqlrel_order_ok. rewrite H, andb_false_r. reflexivity. Qed.
+
+Lemma default_order_multiple ops d a :
+  order_ok d = true ->
+  exists l, multiple_join (effective d JDefault) (run ops) a = JOk l /\
+            (forall b, In b l <-> In b (tB (run ops)) /\ r_fk b = Some a) /\
+            sortedR d l.
+Proof.
+  intros Hok. destruct (one_to_many ops d a Hok) as [l [H1 [H2 [_ H3]]]]. exists l. auto.
+Qed.
+
+(* the full list/query agreement for related joins fails on the self-referential
+   join with an expression key *)
+Lemma list_query_agree_related_refuted :
+  ~ (forall (ops : list op) (j : rjoin) (o : order) (inst : Z),
+       order_ok o = true ->
+       live (j_owner j) inst (run ops) = true ->
+       exists l cands,
+         related_join j o (run ops) inst = JOk l /\ sql_related j o (run ops) inst = JOk cands /\
+         forall q, sql_rows (order_keys o) cands q ->
+                   Permutation l q /\
+                   ((forall x y, In x cands -> In y cands ->
+                                 lex_le rval (order_keys o) x y = true ->
+                                 lex_le rval (order_keys o) y x = true -> x = y) -> q = l)).
+Proof.
+  intros H.
+  destruct (H [Create CP None None None None FkNone] jP_fr
+              (OOne {| k_col := CK K0; k_desc := false; k_form := FExpr |}) 1 eq_refl eq_refl)
+    as [l [cands [_ [Hs _]]]].
+  vm_compute in Hs. discriminate.
 Qed.
